@@ -7,7 +7,7 @@ from .. import common, meta, progs, robust
 LEVEL = "proof"
 RULE = ("Lean: the token kind parser.Read builds for an identifier is a function of a category tuple of the name (keyword, in configured class list, first byte upper, some lower-case rune, "
         "byte length >= 2, contains ':', starts with ':'), so a renaming that preserves the tuple preserves the kind; Ruby's coarser lexical category is refuted (Hoge vs HG). The classification model is "
-        "tied by the tok stream. End-to-end: every renameable local, method and class of generated programs (and locals of corpus programs) is renamed to fresh names of length 1..8 with the same "
+        "tied by the tok stream; IsVariableIdentifier (what patterns and parameters bind) holds for every name of the local-variable category, `_`-initial ones included (namepred stream). End-to-end: programs with binding constructs (case/in patterns, block/method parameters, multiple assignment, rescue, for) and every renameable local, method and class of generated programs (and locals of corpus programs) is renamed to fresh names of length 1..8 with the same "
         "category; the output must be the original output with the same substitution applied. Non-trivial = the baseline output is non-empty.")
 
 LOCAL = re.compile(r"\bv\d+\b")
@@ -24,6 +24,9 @@ def fresh(rng, kind, used):
             name = "".join(rng.choice("qzxjwky") for _ in range(n))
             if kind == "method" and n == 1:
                 name += rng.choice("qz")
+            if kind == "local" and rng.random() < 0.3:
+                # Ruby's local-variable category also has `_`-initial names and digits/underscores inside
+                name = "_" + name[:-1] + rng.choice(["", "7", "_q"]) if n > 1 else "_" + name
         if name not in used and name not in ("if", "do", "in", "or", "end", "and", "not", "def", "nil", "p", "puts", "self", "then", "when", "case", "else", "begin", "class", "true", "false", "while", "until", "yield", "next", "redo", "retry", "return", "super", "unless", "elsif", "ensure", "rescue", "module", "loop"):
             used.add(name)
             return name
@@ -44,11 +47,31 @@ def rename_cases(rng, text):
     return out
 
 
+BINDERS = [
+    "v1 = [1, 's']\ncase v1\nin [v2, v3]\n  dbtp v2\n  dbtp v3\n  v3.upcase\n  v2.upcase\nend\n",
+    "v1 = [1, 2, 3]\ncase v1\nin [v2, *v3]\n  dbtp v2\n  dbtp v3\nend\n",
+    "v1 = 1\ncase v1\nin Integer => v2\n  dbtp v2\nin String\n  dbtp v1\nend\n",
+    "[1, 2].each do |v4|\n  dbtp v4\n  v4.upcase\nend\n",
+    "{a: 1}.each do |v4, v5|\n  dbtp v4\n  dbtp v5\nend\n",
+    "v5, v6 = 1, 's'\ndbtp v5\ndbtp v6\nv5.upcase\n",
+    "def m_v7(v8, v9 = 1, v10: 's')\n  dbtp v9\n  dbtp v10\n  v8\nend\ndbtp m_v7(1)\nm_v7(1, 2, v10: 'x')\nm_v7\n",
+    "def m_v7(*v8, **v9)\n  dbtp v8\n  dbtp v9\nend\nm_v7(1, 2, a: 1)\n",
+    "begin\n  v1 = 1\nrescue => v11\n  dbtp v11\nend\ndbtp v1\n",
+    "for v12 in [1, 2] do\n  dbtp v12\nend\n",
+    "v1 = 1\nv2 = v1 ? 's' : nil\nif v2.nil?\n  dbtp v2\nelse\n  dbtp v2\nend\nv3 = [v1, v2]\ndbtp v3\n",
+    "class Kv1\n  attr_accessor :v2\n  def initialize(v3)\n    @v2 = v3\n  end\n  def m_v4(v5)\n    v5\n  end\nend\nv6 = Kv1.new(1)\ndbtp v6.v2\ndbtp v6.m_v4('s')\nv6.nope\n",
+    "v1 = ->(v2) { v2 }\ndbtp v1\nv3 = proc { |v4| v4 }\ndbtp v3\n",
+    "v1 = 5\nv1 += 1\ndbtp v1\nv2 = \"a#{v1}b\"\ndbtp v2\nv2.nope\n",
+]
+
+
 def run_e2e(ctx, n, tag):
     rng = ctx.rng
     wd = common.make_workdir(ctx, "e2e" + tag)
     cfgdir = os.path.join(common.REPO, "test", ".ti-config")
     programs = [progs.gen_program(rng, cfgdir, level=rng.choice([2, 3, 4, 4]), rich=False) for _ in range(n)]
+    # constructs that BIND names (patterns, parameters, multiple assignment, rescue, for): each several times, renamings differ
+    programs += [b for b in BINDERS for _ in range(max(1, n // 60))]
     jobs = []
     for pi, text in enumerate(programs):
         for ci, (kind, old, new, nt) in enumerate(rename_cases(rng, text)):
@@ -90,6 +113,20 @@ def run_e2e(ctx, n, tag):
     return failures
 
 
+def namepred_ops(ctx, n, bcs):
+    rng = ctx.rng
+    alpha = [ord(c) for c in "abqzxQZHG_@$:?!=09"] + [0xe9, 0x3a9, 0x3b1, 0x4e2d]
+    names = [[ord(c) for c in b] for b in bcs.split(",") if b]
+    ops = []
+    for _ in range(n):
+        if names and rng.random() < 0.1:
+            nm = rng.choice(names)
+        else:
+            nm = [rng.choice(alpha) for _ in range(rng.choice([1, 1, 2, 3, 4, 6]))]
+        ops.append("namepred %s|%s" % (bcs, " ".join(map(str, nm))))
+    return ops
+
+
 def run(ctx):
     common.build_ti(ctx)
     common.build_godrv(ctx)
@@ -99,6 +136,7 @@ def run(ctx):
     if proof_ok:
         bcs = robust.builtin_classes(ctx, wd)
         dis["tok"] = common.run_stream(ctx, "tok", robust.tok_ops(ctx, ctx.pick(1200, 12000), bcs), cwd=wd)
+        dis["namepred"] = common.run_stream(ctx, "namepred", namepred_ops(ctx, ctx.pick(4000, 40000), bcs), cwd=wd)
     failures = run_e2e(ctx, ctx.pick(110, 1100), "a")
 
     def search():
